@@ -74,6 +74,11 @@ Skeletons2 == {
   \* literals
   << "2", "?B", "3" >>, << "1.5", "?B", "a" >>, << "True", "?B", "a" >>, << "a", "?B", "False" >>,
   << "?U", "2", "?B", "a" >>, << "2", "**", "?U", "1" >>, << "a", "**", "?U", "b", "**", "c" >>,
+  \* a prefix operator applied to a parenthesised expression that itself begins with a prefix
+  \* operator: nothing may be folded away across the parentheses
+  << "?U", "(", "?U", "a", "?b", "b", ")" >>, << "?U", "(", "?U", "a", "*", "b", "*", "c", ")" >>,
+  << "c", "?b", "?U", "(", "?U", "a", "*", "b", ")" >>, << "?U", "(", "?U", "f", "(", "a", ")", "*", "b", ")" >>,
+  << "?U", "(", "?U", "(", "?U", "a", ")", ")" >>, << "?U", "(", "a", "?b", "?U", "b", ")" >>,
   << "?L" >>, << "?L", "?b", "a" >>, << "a", "?b", "?L" >>, << "?U", "?L" >>, << "f", "(", "?L", ")" >>,
   << "t", "[", "?L", "]" >>, << "(", "a", ")", "?b", "?L" >>, << "?L", "if", "a", "else", "?L" >>
 }
